@@ -30,7 +30,8 @@ ASSUMPTIONS = ["hypotheses of C02.exact / reject_raises / smart_indep: as C01.pa
                "alternatives when the model sees them (protocol `!` / field AX=); the harness expands AnyTokenExcept itself: the "
                "SET of tokens is the reference's (token groups - synonym sources + synonym and keyword targets), only the order "
                "among them (iteration order of a Python set) is read from the code; the parser is built from the original "
-               "None / AnyTokenExcept objects; terminal names containing `__` are not generated"]
+               "None / AnyTokenExcept objects; terminal names containing `__` are not generated; the names listed in AnyTokenExcept are tokens of the parser's "
+               "tokenizer (others are a GrammarError of the expansion, which the model does not see)"]
 
 
 def impl(case):
